@@ -563,7 +563,6 @@ func (r *c31Run) arith(op string, recv, other *histogram.FloatHistogram, want, i
 	saved := other.Copy()
 	var err error
 	var val, comp *histogram.FloatHistogram
-	zls := c31ZeroLenSpan(recv)
 	before := c31Reg{f: recv.Copy()}
 	if p := func() (p any) {
 		defer func() { p = recover() }()
@@ -577,10 +576,6 @@ func (r *c31Run) arith(op string, recv, other *histogram.FloatHistogram, want, i
 		}
 		return nil
 	}(); p != nil {
-		if zls {
-			r.violation("KF3:zero-length-span-receiver", "%s panics when the receiver has a span of length 0 (accepted by Validate): %v; receiver %s other %s", what, p, before, c31Reg{f: other})
-			return
-		}
 		buf := make([]byte, 2048)
 		buf = buf[:runtime.Stack(buf, false)]
 		r.violation("panic", "%s: panic: %v; receiver %s other %s\n%s", what, p, before, c31Reg{f: other}, buf)
@@ -627,30 +622,12 @@ func (r *c31Run) arith(op string, recv, other *histogram.FloatHistogram, want, i
 		r.violation("other-mutated", "%s: the other operand was modified", what)
 	}
 	if d := r.c.cmpFloat(val, want); d != "" {
-		if zls {
-			r.violation("KF3:zero-length-span-receiver", "%s: %s when the receiver has a span of length 0 (accepted by Validate); receiver %s other %s result %s", what, d, before, c31Reg{f: other}, c31Reg{f: val})
-			return
-		}
 		if kf && impl != nil && r.c.cmpFloat(val, impl) == "" {
 			r.violation("KF1:zero-straddle-double-count", "%s: %s (buckets of the finer operand below the common zero threshold are counted in the zero bucket and again in the merged bucket); result %s", what, d, c31Reg{f: val})
 			return
 		}
 		r.violation(strings.ToLower(op), "%s: %s; result %s", what, d, c31Reg{f: val})
 	}
-}
-
-func c31ZeroLenSpan(h *histogram.FloatHistogram) bool {
-	for _, s := range h.PositiveSpans {
-		if s.Length == 0 {
-			return true
-		}
-	}
-	for _, s := range h.NegativeSpans {
-		if s.Length == 0 {
-			return true
-		}
-	}
-	return false
 }
 
 func (r *c31Run) reset(cur, prev c31Reg, want, impl, what string) {
@@ -876,9 +853,7 @@ func (r *c31Run) step(s c31Step) {
 		}
 		// chained Kahan summation with a carried compensation histogram: (A + B) + B - B = A + B
 		a := r.copyA()
-		if c31ZeroLenSpan(a) {
-			// KF-C31-3 (reported by arith above)
-		} else if comp, _, _, err := a.KahanAdd(r.B.f, nil); err == nil && !s.WKf {
+		if comp, _, _, err := a.KahanAdd(r.B.f, nil); err == nil && !s.WKf {
 			if _, _, _, err2 := a.KahanAdd(r.B.f, comp); err2 != nil {
 				r.violation("kadd-chain", "second KahanAdd failed: %v", err2)
 			}
